@@ -2,7 +2,7 @@
   C09, second module — "including filters restored from an export" (joining C09 and C05); statements in
   full in `Lemmas/CorollariesExp.lean`.
 -/
-import PyProb.Lemmas.Corollaries
+import PyProb.Lemmas.CorollariesExp
 
 namespace PyProb.C09
 open PyProb
